@@ -306,8 +306,18 @@ Definition decode (ops : list (list Z)) : option cfg :=
   | _, _ => None
   end.
 
+(* op [4 b]: the harness's callback_await callback throws after doing its work.  The callback is invoked outside the
+   try block (callback_awaiter.h:72-92), so its exception leaves through unhandled_exception of the detached
+   coroutine and nothing else changes: the flag is only checked for well-formedness here. *)
+Definition flag_ok (ops : list (list Z)) : bool :=
+  match find_op 4 ops with
+  | None => true
+  | Some [b] => match dec_bool b with Some _ => true | None => false end
+  | Some _ => false
+  end.
+
 Definition decode_valid (ops : list (list Z)) : option cfg :=
-  match decode ops with Some c => if valid c then Some c else None | None => None end.
+  match decode ops with Some c => if valid c && flag_ok ops then Some c else None | None => None end.
 
 Definition decode_sched (l : list Z) : list Z := match l with 9 :: r => r | _ => [] end.
 
